@@ -606,9 +606,14 @@ func ruleDedup(r *Run) {
 		// R13k.slot: a request takes a target index (setIMap says "new") exactly when it adds
 		// one entry to the batch: the i-th answer belongs to the requests mapped to target i
 		var batchT string
-		for _, e := range r.P.CG.Ext[exq] {
-			if e.Name == "github.com/buildbuildio/pebbles/queryer.Queryer.Query" && len(e.Site.Common().Args) == 1 {
-				batchT = e.Site.Common().Args[0].Type().String()
+		for _, fn := range r.P.Funcs {
+			if topFn(fn).Pkg != exq.Pkg {
+				continue
+			}
+			for _, e := range r.P.CG.Ext[fn] {
+				if e.Name == "github.com/buildbuildio/pebbles/queryer.Queryer.Query" && len(e.Site.Common().Args) == 1 {
+					batchT = e.Site.Common().Args[0].Type().String()
+				}
 			}
 		}
 		isBatchAppend := func(ins ssa.Instruction) bool {
@@ -620,11 +625,17 @@ func ruleDedup(r *Run) {
 			return isB && b.Name() == "append" && c.Type().String() == batchT
 		}
 		m := 0
-		for _, ins := range allInstrs(exq) {
-			c, ok := ins.(*ssa.Call)
-			if !ok || c.Call.IsInvoke() || c.Call.StaticCallee() == nil || r.P.declared(c.Call.StaticCallee()) != set || set == nil {
+		// wherever the request loop lives (executeRequests or a helper that prepares the batch)
+		var setCalls []*Edge
+		if set != nil {
+			setCalls = r.P.CG.In[set]
+		}
+		for _, e := range setCalls {
+			c, ok := e.Site.(*ssa.Call)
+			if !ok || e.Kind != "static" {
 				continue
 			}
+			exq := e.Caller
 			m++
 			loop := innermostLoop(c.Block())
 			var fresh *ssa.BasicBlock
@@ -672,7 +683,7 @@ func ruleDedup(r *Run) {
 				"target indexes and batch positions drift apart ("+why+"): a request that is skipped after it took an index leaves a gap, every later answer is handed to the wrong requests and one place gets no answer at all")
 		}
 		if set != nil {
-			r.AtLeast("R13k.slot", "setIMap calls in executeRequests", m, 1)
+			r.AtLeast("R13k.slot", "setIMap calls", m, 1)
 		}
 	}
 }
